@@ -160,9 +160,27 @@ func (ans *answer) setBootstrap(c *capnp.Client) error {
 //
 // The caller must NOT be holding onto ans.c.mu or the sender lock.
 func (ans *answer) Return(e error) {
+	// Until the results are marked ready, the receive goroutine hands
+	// pipelined calls to the PipelineCaller returned by RecvCall, which
+	// reads the results message (content and capability table).  Publish
+	// the results first, so that new pipelined calls are resolved from
+	// ans.results/ans.resultCapTable under c.mu instead, and wait for the
+	// deliveries already in flight before the message is modified.
+	ans.c.mu.Lock()
+	if ans.results.IsValid() {
+		ans.resultCapTable = ans.results.Message().CapTable
+	}
+	if e != nil {
+		ans.err = e
+	}
+	ans.pcall = nil
+	ans.flags |= resultsReady
+	ans.c.mu.Unlock()
+	ans.pcalls.Wait()
+
 	var cstates []capnp.ClientState
 	if ans.results.IsValid() {
-		ans.resultCapTable, cstates = extractCapTable(ans.results.Message())
+		_, cstates = extractCapTable(ans.results.Message())
 	}
 	verifhook.Yield(700)
 	ans.c.mu.Lock()
